@@ -31,6 +31,10 @@ func vfNewLifecycler(store *vfKV, numTokens int, src rand.Source) *Lifecycler {
 }
 
 func vfNewLifecyclerKV(store kv.Client, numTokens int, src rand.Source) *Lifecycler {
+	return vfNewLifecyclerFT(store, numTokens, src, nil)
+}
+
+func vfNewLifecyclerFT(store kv.Client, numTokens int, src rand.Source, ft FlushTransferer) *Lifecycler {
 	var cfg LifecyclerConfig
 	cfg.RingConfig.KVStore.Mock = store
 	cfg.RingConfig.HeartbeatTimeout = time.Minute
@@ -46,7 +50,7 @@ func vfNewLifecyclerKV(store kv.Client, numTokens int, src rand.Source) *Lifecyc
 	if src != nil {
 		cfg.RingTokenGenerator = &RandomTokenGenerator{r: rand.New(src)}
 	}
-	l, err := NewLifecycler(cfg, nil, "r", "k", false, log.NewNopLogger(), nil)
+	l, err := NewLifecycler(cfg, ft, "r", "k", ft != nil, log.NewNopLogger(), nil)
 	vfAssert(err == nil, "C08 lifecycler is created")
 	return l
 }
